@@ -174,7 +174,8 @@ def final_clauses(B, self):
 def doer_do(B, keyboard):
     B.ghost("tyme", B.real("tyme"))
     recur_gen = B.choice(False, True, label="recur-is-generator")
-    self = B.obj(DOER, _tymth=None, opts=B.dict({}))
+    earlier = B.model(lambda ctx, a, k: ctx.fresh("real", "tyme-of-an-earlier-run"), "earlier-tymth") if B.choice(False, True, label="ran-before") else None
+    self = B.obj(DOER, _tymth=earlier, opts=B.dict({}))
     recur_plain, req, outcome = install_hooks(B, self, keyboard, recur_gen)
     if recur_gen:
         sub = SubGen(B, self, req, outcome)
@@ -189,10 +190,11 @@ def doer_do(B, keyboard):
            modifies=["self.done", "ghost:phase:int", "ghost:last_recur:bool"])
     tymth = B.model(lambda ctx, a, k: ctx.ghost["tyme"], "tymth")
     B.call(self, tymth, tock=B.real("tock"), temp=B.opt("bool", "temp"), yield_handler=make_yield_handler(B))
+    B.prove("wound-to-the-time-source-of-THIS-run (not one kept from an earlier run)", B.ctx.st(self)["_tymth"] is tymth, top=True, props=["C04", "C01"])
     final_clauses(B, self)
 
 
-@contract(DOER + ".do", props=["C01", "C02", "C05"], name=DOER + ".do")
+@contract(DOER + ".do", props=["C01", "C02", "C05", "C04"], name=DOER + ".do")
 def doer_do_exc(B):
     doer_do(B, keyboard=False)
 
@@ -204,7 +206,9 @@ def doer_do_kbd(B):
 
 def dodoer_do(B, keyboard):
     B.ghost("tyme", B.real("tyme"))
-    self = B.obj(DODOER, _tymth=None, opts=B.dict({}), _doers=B.list([]), _deeds=B.deque([]))
+    # the doer object may have run before, under ANOTHER scheduler: whatever time source it was wound to then is arbitrary
+    earlier = B.model(lambda ctx, a, k: ctx.fresh("real", "tyme-of-an-earlier-run"), "earlier-tymth") if B.choice(False, True, label="ran-before") else None
+    self = B.obj(DODOER, _tymth=earlier, opts=B.dict({}), _doers=B.list([]), _deeds=B.deque([]))
     recur_plain, req, outcome = install_hooks(B, self, keyboard, False)
     B.virtual(self, "recur", recur_plain)
     B.loop(DODOER + ".do", 0, invariant=["ghost('phase') == 1 or ghost('phase') == 2",
@@ -215,10 +219,11 @@ def dodoer_do(B, keyboard):
     always = B.opt("bool", "always")
     B.let(always_eff=None)
     B.call(self, tymth, tock=B.real("tock"), always=always, temp=B.opt("bool", "temp"), yield_handler=make_yield_handler(B))
+    B.prove("wound-to-the-time-source-of-THIS-run (not one kept from an earlier run)", B.ctx.st(self)["_tymth"] is tymth, top=True, props=["C04", "C01"])
     final_clauses(B, self)
 
 
-@contract(DODOER + ".do", props=["C01", "C02", "C05"], name=DODOER + ".do")
+@contract(DODOER + ".do", props=["C01", "C02", "C05", "C04"], name=DODOER + ".do")
 def dodoer_do_exc(B):
     dodoer_do(B, keyboard=False)
 
